@@ -132,14 +132,26 @@ Definition names_variable (base : str) (words : list str) (position nassign : na
   Nat.ltb nassign position &&
   (mem_str base NAME_EVAL_ALL || (str_eqb base NAME_EVAL_CMD && str_eqb (nth (position - 1) words []) NAME_EVAL_FLAG)).
 
+(* _REWRITTEN_CHARS.intersection(word): the word holds a character bash (or the tool) still acts on -
+   an expansion, a glob, a brace: it is not the name of the file as written *)
+Definition has_rewritten (t : str) : bool := existsb (fun c => existsb (N.eqb c) REWRITTEN_CHARS) t.
+
+(* _match_written_file(target, config, cwd) given match_redirect's answer: an allow rule grants only a literal name *)
+Definition written_rule (m : option verdict) (t : str) : option verdict :=
+  match m with
+  | Some Allow => if has_rewritten t then None else Some Allow
+  | _ => m
+  end.
+
 (* _extract_cd_target(node) *)
 Definition extract_cd_target (t : tree) : option str :=
   if negb (is_kind "command" t) then None else
   match children "words" t with
   | [w0; w1] =>
       if negb (str_eqb (word_value w0) $"cd") then None
-      else if existsb (fun p => mem_str (kind_of p) CD_DYNAMIC_PARTS) (children "parts" w1) then None
+      else if nonempty (children "parts" w1) then None       (* an expansion of any kind *)
       else let tgt := word_value w1 in
+           if has_rewritten tgt then None else
            (* cd -, cd ~-, cd ~user, cd -P: not the name of a directory *)
            if prefixb [45] tgt || (prefixb [126] tgt && negb (match tl tgt with [] => true | c :: _ => N.eqb c 47 end)) then None
            else Some tgt
@@ -250,7 +262,7 @@ Section Walker.
     end.
 
   Definition redirect_rule (cwd tgt : str) : verdict :=
-    match mredir cwd tgt with
+    match written_rule (mredir cwd tgt) tgt with
     | Some v => v
     | None => Ask
     end.
